@@ -150,6 +150,7 @@ pub fn run_c10(tier: Tier) -> i32
     use crate::c10::*;
     let t0 = Instant::now();
     let deadline = deadline_for(tier, t0);
+    *BURST_SIZES.lock().unwrap() = if tier == Tier::Quick { vec![300] } else { vec![300, 3000] };
     let depth = 40; // the reachable state set is finite: the search runs to its fixed point (depth 12 on the pinned tree)
     let threads = std::thread::available_parallelism().map(|n| n.get()).unwrap_or(4).min(16);
     let stats = bfs::<Op10, Key10>(depth, Some(deadline), threads, &enabled10, &run10);
@@ -170,7 +171,8 @@ pub fn run_c10(tier: Tier) -> i32
     finish("C10", tier, t0, runs,
         json!({"loom": crate::loom_leg::describe()}),
         "sequential: all histories of prepare / clone / drop / gc / manual despawn / reparent over 3 entities and <= 4 live \
-         clones to the stated depth, deduplicated by (reference-model state, observed liveness, pending signals); \
+         clones, plus at most one burst (300 [thorough: or 3000] fresh entities prepared, optionally despawned by hand, \
+         two clones each dropped before the next collection) to the stated depth, deduplicated by (reference-model state, observed liveness, pending signals); \
          concurrent: all interleavings (loom, real src/ecs/auto_despawn.rs) of clone drops on two worker threads with \
          garbage collection on the main thread; non-trivial/distinct = distinct canonical states",
         vec![
@@ -190,6 +192,7 @@ pub fn replay_es(property: &str, path: &str) -> i32
         "c10" =>
         {
             use crate::c10::*;
+            *BURST_SIZES.lock().unwrap() = vec![300, 3000];
             // re-parse the history by enumerating enabled ops and matching their rendering
             let mut h: Vec<Op10> = Vec::new();
             for s in hist.iter()
